@@ -63,7 +63,7 @@ func cmdBounds(args []string) int {
 			} else {
 				np++
 			}
-			fmt.Printf("%s %-7s %-28s %s  %s  %s\n", st, ob.Kind, p.Pos(ob.Instr.Pos()), FuncName(f), trunc(ob.Expr, 80), trunc(ob.Detail, 200))
+			fmt.Printf("%s %-7s %-28s %s  %s  %s %s\n", st, ob.Kind, p.Pos(ob.Instr.Pos()), FuncName(f), trunc(ob.Expr, 80), trunc(ob.Detail, 200), ob.Why)
 		}
 	}
 	fmt.Printf("proved=%d open=%d\n", np, nu)
